@@ -114,4 +114,58 @@ def dumpPipeline (stackBudget : Nat) (b : Bytes) : Outcome Unit :=
   | none => .error
   | some (v, _) => walkValue stackBudget v
 
+/-- `torrent link`: load, then the link is built from the loaded value by total functions
+(the one `invariant_unwrap` there parses the constant `magnet:`); the generic value is dropped -/
+def linkPipeline (urlOk : Bytes → Bool) (stackBudget : Nat) (b : Bytes) : Outcome Unit :=
+  match loadTorrent urlOk b with
+  | .outOfModel => .error
+  | .error _ => .error
+  | .ok _ _ =>
+    match decodeTop 2048 b with
+    | some (v, _) => walkValue stackBudget v
+    | none => .error
+
+/-! ## the verifier's read loop (`Verifier::hash`), counters only
+
+`remaining = &mut buffer[..piece_length - piece_bytes_hashed]` (panics when the subtraction
+underflows), `read = &remaining[..bytes_read]` (panics when the reader returns more than it was
+given room for — excluded by the `Read` contract, modelled by clamping), `piece_bytes_hashed +=
+bytes_read`, reset to 0 when a piece is complete. `reads` is what the operating system returns,
+file after file; 0 ends a file. -/
+
+/-- one iteration; `none` = end of this file -/
+def hashIter (pl pbh : Nat) (osRead : Nat) : Outcome (Option Nat) :=
+  if pbh > pl then .panic "verifier.rs: attempt to subtract with overflow" else
+  let room := pl - pbh
+  let n := min osRead room                       -- `Read::read` never returns more than the buffer holds
+  if n > room then .panic "verifier.rs: range end index out of range" else
+  if n = 0 then .ok none else
+  let pbh' := pbh + n
+  .ok (some (if pbh' = pl then 0 else pbh'))
+
+/-- all reads of all files, threading `piece_bytes_hashed` -/
+def hashReads (pl : Nat) : Nat → List Nat → Outcome Nat
+  | pbh, [] => .ok pbh
+  | pbh, r :: rest =>
+    (hashIter pl pbh r).bind fun o =>
+      match o with
+      | none => hashReads pl pbh rest          -- next file, same piece state
+      | some pbh' => hashReads pl pbh' rest
+
+/-- `torrent verify`: load, `Verifier::new` (piece length must fit `u32` and be non-zero, path
+components must be plain — errors, not panics), the progress bar's content size, the read loop over
+whatever the files deliver -/
+def verifyPipeline (urlOk : Bytes → Bool) (stackBudget : Nat) (b : Bytes) (reads : List Nat) : Outcome Unit :=
+  match loadTorrent urlOk b with
+  | .outOfModel => .error
+  | .error _ => .error
+  | .ok m _ =>
+    if m.info.pieceLength ≥ 2 ^ 32 ∨ m.info.pieceLength = 0 then .error else
+    (sumLengths (lengthsOf m.info.mode)).bind fun _ =>
+    (pieceCount m.info.pieces).bind fun _ =>
+    (hashReads m.info.pieceLength 0 reads).bind fun _ =>
+    match decodeTop 2048 b with
+    | some (v, _) => walkValue stackBudget v
+    | none => .error
+
 end Imdlv.NoPanic
